@@ -326,3 +326,69 @@ func execProgram(r *hx.Rand) string {
 	g.sb.WriteString("}\n")
 	return g.sb.String()
 }
+
+// depthProgram: the call-depth boundary family. The deepest nesting of user calls is exactly `d` (the caller picks d around
+// the limit the translator reads from interp.go, Gen/Consts.v maxCallDepth): the run must end in the call-depth error iff
+// d > limit, and otherwise print the value computed on the way back. Dimensions: direct / 2-cycle / 3-cycle recursion; the
+// recursive call in return-expression, operand, argument, condition, subscript, assignment-rhs or statement position; the
+// chain entered from BEGIN directly or through `w` wrapper functions (so the count, not the callee, decides); counting down
+// or up. Everything stays inside the integer fragment so that AstSem.exec_stmts and VM.run are both compared with goawk.
+func depthProgram(r *hx.Rand, d int) string {
+	var sb strings.Builder
+	w := r.Intn(3)       // wrapper levels in front of the chain
+	n := d - w           // levels contributed by the chain itself
+	cyc := 1 + r.Intn(3) // functions in the cycle
+	pos := r.Intn(7)
+	up := r.Intn(2) == 0
+	name := func(i int) string { return fmt.Sprintf("r%d", i%cyc) }
+	for i := 0; i < cyc; i++ {
+		next := name(i + 1)
+		// the chain function is entered with k = levels still to go (down) or levels done so far (up, stops at g3)
+		stop, arg := "k <= 1", "k - 1"
+		if up {
+			stop, arg = "k >= g3", "k + 1"
+		}
+		call := fmt.Sprintf("%s(%s)", next, arg)
+		fmt.Fprintf(&sb, "function %s(k, t) {\n  g0++\n  if (%s) return 1\n", name(i), stop)
+		switch pos {
+		case 0:
+			fmt.Fprintf(&sb, "  return %s + 1\n", call)
+		case 1:
+			fmt.Fprintf(&sb, "  t = 1 + %s\n  return t\n", call)
+		case 2:
+			fmt.Fprintf(&sb, "  %s\n  g1++\n  return g1 + 1\n", call)
+		case 3:
+			fmt.Fprintf(&sb, "  if (%s > 0) g1++\n  return g1 + 1\n", call)
+		case 4:
+			fmt.Fprintf(&sb, "  A[%s %% 3] += 1\n  return A[k %% 3] + A[(k + 1) %% 3] + 1\n", call)
+		case 5:
+			fmt.Fprintf(&sb, "  return id(%s) + 1\n", call)
+		default:
+			fmt.Fprintf(&sb, "  return (k %% 2 ? %s : %s) + (0 && %s) + 1\n", call, call, call)
+		}
+		sb.WriteString("}\n")
+	}
+	if pos == 5 {
+		sb.WriteString("function id(x) { return x }\n")
+	}
+	entry := "r0"
+	for i := 0; i < w; i++ {
+		fmt.Fprintf(&sb, "function w%d(k) { g2++; return %s(k) + 0 }\n", i, entry)
+		entry = fmt.Sprintf("w%d", i)
+	}
+	start := n
+	if up {
+		start = 1
+	}
+	fmt.Fprintf(&sb, "BEGIN {\n  g3 = %d\n  print 7\n", n)
+	if r.Intn(2) == 0 {
+		fmt.Fprintf(&sb, "  g1 = 0; %s(%d)\n  print 0 + g0, 0 + g1, 0 + g2\n", entry, start)
+	} else {
+		fmt.Fprintf(&sb, "  print %s(%d), 0 + g0, 0 + g1, 0 + g2\n", entry, start)
+	}
+	if pos == 4 { // (length(A) of a name never used as an array would be the string builtin, outside the fragment)
+		sb.WriteString("  print length(A)\n  for (z = 0; z < 3; z++) print z, 0 + A[z]\n")
+	}
+	sb.WriteString("}\n")
+	return sb.String()
+}
